@@ -22,6 +22,7 @@ type SpecEnv struct {
 	guard  string
 	bound  map[string]bool
 	tparams map[string]types.Type
+	locals  map[string]*Loc // named local variables that live in memory cells
 }
 
 func newSpecEnv(vc *VC, pkg string) *SpecEnv {
@@ -286,6 +287,9 @@ func (env *SpecEnv) ident(e *SExpr, hint types.Type) Val {
 			env.fail(e, "no map iterator")
 		}
 		return Val{T: vc.iterTypes[found], S: vc.get(env.mem, found), Math: true}
+	}
+	if l, ok := env.locals[e.Name]; ok {
+		return Val{T: l.T, S: vc.loadLoc(env.mem, l)}
 	}
 	if gv, ok := vc.P.ghostVars[e.Name]; ok {
 		t := vc.P.resolveGhostType(gv)
@@ -673,6 +677,13 @@ func (env *SpecEnv) call(e *SExpr, hint types.Type) Val {
 		n := bvLit(64, uint64(flatLen(et)))
 		idx := app("bvadd", app("bvmul", app("bvadd", app("soff", s.S), i), n), j)
 		return Val{T: leafType(et), S: app("select", app("select", vc.get(env.mem, comp), app("sarr", s.S)), idx)}
+	case "elemat":
+		// elemat(s, i): element at absolute index i of the backing array of slice s
+		need(2)
+		sl := env.eval(args[0], nil)
+		i := env.toBV64(env.eval(args[1], tInt))
+		et := sliceElem(sl.T)
+		return Val{T: et, S: app("select", app("select", vc.get(env.mem, vc.elemComp(et)), app("sarr", sl.S)), i)}
 	case "min", "max":
 		need(2)
 		a := env.eval(args[0], hint)
